@@ -5,6 +5,7 @@ import (
 	"reflect"
 	"strconv"
 	"sync"
+	"unsafe"
 
 	"github.com/mlange-42/arche/ecs"
 )
@@ -177,6 +178,24 @@ type TypeInfo struct {
 func infoOf(key string) TypeInfo {
 	t := TypeOfKey(key)
 	return TypeInfo{Key: key, Type: t, Size: int(t.Size()), Rel: KeyIsRel(key)}
+}
+
+// ptrArena is what the values of pointer-typed components point into: package-level memory, so that the values
+// are valid pointers for the collector and can be written as plain bytes (nothing ever dereferences them).
+var ptrArena [64][8]uint64
+
+// Pat returns the byte pattern of write number k for a component of this type: pseudo-random bytes for
+// pointer-free types, the address of one of 64 arena cells for pointer types.
+func (t TypeInfo) Pat(k int) []byte {
+	if t.Type != nil && t.Type.Kind() == reflect.Pointer {
+		b := make([]byte, t.Size)
+		a := uint64(uintptr(unsafe.Pointer(&ptrArena[(uint(k)*2654435761)%64])))
+		for i := 0; i < 8 && i < len(b); i++ {
+			b[i] = byte(a >> (8 * i))
+		}
+		return b
+	}
+	return Pattern(k, t.Size)
 }
 
 // Pattern returns the unique byte pattern of write number k for a component of n bytes.
